@@ -98,6 +98,18 @@ class HarnessError(Exception):
 # ======================================================================= classes
 
 
+ANN_RESOLVER: list = [None]     # set by C07: turns an annotation *term* held by a field into a Python type
+_CLASS_CACHE: Dict[int, Any] = {}
+
+
+def _ann(ann: Any, ct: Any) -> Any:
+    if ann is None:
+        return Any
+    if hasattr(ann, "term") and hasattr(ann, "owner"):
+        return ANN_RESOLVER[0](ann, ct)
+    return ann
+
+
 class ClassTable:
     """Per-case class table: descriptors (dicts) -> real classes.
 
@@ -112,7 +124,13 @@ class ClassTable:
         self.classes: List[type] = []
         self.ids: Dict[type, int] = {}
         for i, d in enumerate(descs):
-            c = self._make(i, d)
+            hit = _CLASS_CACHE.get(id(d))
+            if hit is not None and hit[0] is d and hit[2] == i and "base_cls" not in d:
+                c = hit[1]                       # the standard classes are built once
+            else:
+                c = self._make(i, d)
+                if d in STD_DESCS[0]:
+                    _CLASS_CACHE[id(d)] = (d, c, i)
             self.classes.append(c)
             self.ids[c] = i
 
@@ -124,11 +142,16 @@ class ClassTable:
             all_f = d["fields"]
             own = all_f if "base_cls" not in d else (all_f[len(all_f) - d.get("own", 0):] if d.get("own", 0) else [])
             for fname, ann, dflt, _req in own:
-                a = Any if ann is None else ann
+                a = _ann(ann, self)
                 if dflt is None:
                     flds.append((fname, a))
                 else:
-                    flds.append((fname, a, dataclasses.field(default=to_py(dflt, self))))
+                    dv = to_py(dflt, self)
+                    if type(dv) in (list, dict, set):
+                        import copy
+                        flds.append((fname, a, dataclasses.field(default_factory=(lambda v=dv: copy.deepcopy(v)))))
+                    else:
+                        flds.append((fname, a, dataclasses.field(default=dv)))
             bases = (self.classes[d["base_cls"]],) if "base_cls" in d else ()
             ns = {}
             if d.get("post_init"):
@@ -149,7 +172,7 @@ class ClassTable:
                     ns[fname] = to_py(dflt, self)
             return type(NamedTuple)(name, (NamedTuple,), ns) if False else _mk_namedtuple(name, d, self)
         if kind == "typed":
-            return _mk_typeddict(name, d)
+            return _mk_typeddict(name, d, self)
         if kind == "plain":
             if d.get("hashable", True):
                 return type(name, (), {"__repr__": lambda s: f"<{name}>"})
@@ -198,7 +221,7 @@ class ClassTable:
 def _mk_namedtuple(name: str, d: dict, ct: "ClassTable") -> type:
     import typing
 
-    ann = [(f[0], Any if f[1] is None else f[1]) for f in d["fields"]]
+    ann = [(f[0], _ann(f[1], ct)) for f in d["fields"]]
     cls = typing.NamedTuple(name, ann)  # type: ignore
     defaults = []
     seen_default = False
@@ -214,13 +237,16 @@ def _mk_namedtuple(name: str, d: dict, ct: "ClassTable") -> type:
     return cls
 
 
-def _mk_typeddict(name: str, d: dict) -> type:
+STD_DESCS: list = [[]]
+
+
+def _mk_typeddict(name: str, d: dict, ct: Any = None) -> type:
     import typing
 
     total = d.get("total", True)
     ann = {}
     for fname, a, _dflt, req in d["fields"]:
-        a = Any if a is None else a
+        a = _ann(a, ct)
         if req and not total:
             a = typing.Required[a]
         elif not req and total:
